@@ -124,7 +124,7 @@ class Outliner:
 
     def try_root(self, t, site, inside=None):
         """t: a freshly built value term; returns the call term of a missing helper whose pattern it instantiates, or None"""
-        if not self.active or not isinstance(t, tuple) or t[0] not in ('call', 'agg', 'bin'):
+        if not self.active or not isinstance(t, tuple) or t[0] not in ('call', 'agg', 'bin', 'cast'):
             return None
         st = None
         for q, v in self.active.items():
